@@ -103,3 +103,30 @@ VARIANTS += [
            [(GE, "    if isinstance(val, bool) or not isinstance(val, (int, float)):", "    if isinstance(val, bool):\n        val = int(val)\n    if not isinstance(val, (int, float)):")],
            ("C01", "C20")),
 ]
+
+RES = "src/jaqalpaq/core/result.py"
+CO = "src/jaqalpaq/core/constant.py"
+BK = "src/jaqalpaq/emulator/backend.py"
+IM = "src/jaqalpaq/_import.py"
+
+VARIANTS += [
+    # ---- seed round 11: passes before discovery are unconditional
+    silent("r11-output-parser-passes-one-by-one",
+           [(RES, "    circuit = expand_macros(fill_in_let(expand_subcircuits(circuit)))\n", "    circuit = expand_subcircuits(circuit)\n    circuit = fill_in_let(circuit)\n    circuit = expand_macros(circuit)\n")],
+           ("C09",)),
+    fire("r11-output-parser-macros-only-if-any",
+         [(RES, "    circuit = expand_macros(fill_in_let(expand_subcircuits(circuit)))\n", "    circuit = fill_in_let(expand_subcircuits(circuit))\n    if circuit.macros:\n        circuit = expand_macros(circuit)\n")],
+         ("C09.4", "parse_jaqal_output_list:unconditional:expand_macros"), ("C09",)),
+    # ---- protocol methods are read-only
+    fire("r11-constant-float-caches",
+         [(CO, "    def __float__(self):\n        \"\"\"Resolve this value converted to a float.\"\"\"\n", "    def __float__(self):\n        \"\"\"Resolve this value converted to a float.\"\"\"\n        self._cached = True\n")],
+         ("C11.2", "Constant.__float__:writes-to-self"), ("C11",)),
+    # ---- one result per trace
+    silent("r11-backend-results-by-append",
+           [(BK, "        job.subcircuits = [self._make_subcircuit(job, *tr) for tr in enumerate(traces)]\n", "        job.subcircuits = []\n        for n, tr in enumerate(traces):\n            job.subcircuits.append(self._make_subcircuit(job, n, tr))\n")],
+           ("C08", "C15")),
+    # ---- the rollback flag
+    silent("r11-rollback-flag-after-eviction-renamed",
+           [(IM, "    fresh = module is None\n    if module is None:\n", "    fresh = (module is None)\n    if module is None:\n")],
+           ("C16",)),
+]
